@@ -153,6 +153,17 @@ def t_range(F, R):
         for side in ("then", "else"):
             b = sexp(i[side])
             R.ob("T-RANGE", "runtime:branch%d:%s:bounds" % (k, side), re.search(r"from.*to", b) is not None, F.loc(f, i), "range must run from `from` to `to`: %s" % b[:80])
+    # every iterable the function returns is collected from such a range: no shortcut result
+    lf = LocalFlow(f["body"])
+    results = [x for x in walk(f["body"]) if x.get("k") == "Call" and norm(x.get("callee") or "").endswith("Primitive::Iterable")]
+    for k, r in enumerate(results):
+        texts = [sexp(r)]
+        for lid in free_locals(r):
+            for d in lf.defs.get(lid, []):
+                texts.append(sexp(d))
+        from_range = any(("ops::Range{" in t or "RangeInclusive::new" in t) and "collect()" in t for t in texts)
+        R.ob("T-RANGE", "runtime:result%d-from-range" % k, from_range, F.loc(f, r), "an iterable returned by range() is not collected from the (from, to) range: `%s` (a shortcut such as `if from >= to { empty }` loses the single element of `a..=a`)" % sexp(r)[:100])
+    R.ob("T-RANGE", "runtime:results", len(results) == 2, F.loc(f), "expected 2 result constructions (non-negative and signed), found %d" % len(results))
 
 
 def top_level(block):
